@@ -89,7 +89,7 @@ def reference(sig, fs, f_range, kw, return_samples=True):
 @st.composite
 def st_group_base(draw, max_len=700):
     """band + signal length for a group case (short signals, >= 8 periods)"""
-    band = draw(gen.st_band())
+    band = draw(gen.st_band(wide=False))      # group checks are about positions and histories, not about filter regimes
     p_lo = band['fs'] / band['f_range'][0]
     n_min = int(max(gen.filt_len_of(band, None) + 8, 9 * p_lo))
     n = draw(st.integers(n_min, max(n_min + 10, min(max_len, int(16 * p_lo)))))
